@@ -19,3 +19,5 @@ rm -f /tmp/demo-$$*
 cd /repo && git apply $S/patch.diff || { echo "does not apply to /repo"; exit 2; }
 for c in "$@"; do (cd /verif && timeout 1200 python3 check.py $c --tier ${TIER:-quick} | grep -E "VIOLATION|KNOWN|^C[0-9]+ " | cut -c1-220); done
 git -C /repo checkout -q -- .
+# the evidence files in the work tree are those of the unchanged tree again
+git -C /verif checkout -q -- evidence 2>/dev/null
